@@ -10,6 +10,7 @@
 #include <cstdio>
 #include <cstdlib>
 #include <string>
+#include <vector>
 
 namespace opensmt::veriftrace {
 
@@ -49,6 +50,25 @@ inline void line(std::string const & s) {
     if (not f) { return; }
     std::fputs(s.c_str(), f);
     std::fputc('\n', f);
+}
+
+// "((x Sort)(y Sort)...)": the variables occurring in the given terms, with their sorts
+template<typename TLogic, typename TTerms> std::string varsWithSorts(TLogic const & logic, TTerms const & roots) {
+    std::string out;
+    std::vector<decltype(logic.getTerm_true())> todo, seen;
+    for (auto r : roots) { todo.push_back(r); }
+    while (not todo.empty()) {
+        auto tr = todo.back();
+        todo.pop_back();
+        bool dup = false;
+        for (auto s : seen) { if (s == tr) { dup = true; break; } }
+        if (dup) { continue; }
+        seen.push_back(tr);
+        if (logic.isVar(tr)) { out += "(" + logic.termToSMT2String(tr) + " " + logic.sortToString(logic.getSortRef(tr)) + ")"; }
+        auto const & t = logic.getPterm(tr);
+        for (int i = 0; i < t.size(); ++i) { todo.push_back(t[i]); }
+    }
+    return "(" + out + ")";
 }
 
 } // namespace opensmt::veriftrace
